@@ -81,6 +81,32 @@ def run(repo, res):
             res.check('C03-R3', key + ' anchor', ok, r['line'][0], r['line'][1],
                       'the target %s must become visible at the start of the body; anchors found: %s'
                       % (key, sorted(kinds)), sample='%s anchored at %s' % (key, sorted(kinds)))
+    # ---- R4 escape statements end their region ----------------------------------------------
+    # Design-agnostic: the region effects of `return x` / `raise x` must differ observably from those of the
+    # plain expression statement `x` (a fresh/dead region, a flag on the region or scope ...); otherwise the
+    # branch that escapes still feeds the next join and its definitions are phantom alternatives.
+    summ = R.summaries(repo)
+
+    def region_signature(cls):
+        sigs = set()
+        for s in summ.get(cls, []):
+            for ps in R.ok_paths(s):
+                flags = tuple(sorted((e[0], str(e[1])) for e in ps.effects
+                                     if e[0] not in ('curscope_attr', 'curscope_attr_guarded')))
+                stamps = tuple(sorted((a, r) for _, a, r, _ in ps.stamps if a != 'flow'))
+                sigs.add((ps.final_flow.startswith('exit(') or ps.final_flow == 'CUR',
+                          tuple(sorted(k for k in ps.regions if not k.startswith('exit(') and k != 'CUR')), flags, stamps))
+        return sigs
+    plain = region_signature('Expr')
+    for cls in ('Return', 'Raise'):
+        sig = region_signature(cls)
+        line = R.method_line(repo, cls)
+        res.check('C03-R4', '%s does not end its region' % cls, sig != plain, line[0], line[1],
+                  'a %s statement leaves the extractor in the same region, with the same effects, as a plain expression '
+                  'statement: the escaping branch still feeds the next join, so its definitions are listed at reads '
+                  'they can never reach (and "possibly undefined" is computed as if the branch continued)' % cls.lower(),
+                  sample='%s: region effects differ from a plain expression statement: %s' % (cls, sig != plain))
+
     # ---- R2 resolution functions -----------------------------------------------------------
     M.check_undefined(repo, res, 'C03-R2')
     lint = repo.module_func(LINTER, 'lint')
@@ -97,5 +123,5 @@ def run(repo, res):
     res.assumptions.extend([
         'reference CFG templates (sa/pyref.py T3) for the C03 domain',
         'get_expr_end returns a position after every read inside the value (its precision is a layout question, C13)',
-        'return/raise do not end a region in supp (escape flows are a known, recorded finding of the design: see DESIGN.md §5 #24)',
+        'escapes: R4 only decides that return/raise are distinguished from plain statements at all, not that every join handles dead regions',
     ])
